@@ -187,8 +187,8 @@ func (lig *MorxSubtableLigature) parseComponents(src []byte, _ int) error {
 	if lig.componentOffset > lig.ligatureOffset {
 		return errors.New("unsupported non sorted offsets")
 	}
-	if L := len(src); L < int(lig.componentOffset) {
-		return fmt.Errorf("EOF: expected length: %d, got %d", lig.componentOffset, L)
+	if L := len(src); L < int(lig.ligatureOffset) {
+		return fmt.Errorf("EOF: expected length: %d, got %d", lig.ligatureOffset, L)
 	}
 	src = src[lig.componentOffset:]
 	componentCount := (lig.ligatureOffset - lig.componentOffset) / 2
